@@ -56,9 +56,89 @@ def solo(ctx, n, tag, prefill=None):
             guard += 1
             if guard > 10 * n + 50:
                 raise harness.MachineryError("solo run does not terminate")
+        _LAST_PUBLISHED[:] = list(w.published)
         return list(w.events), w.results.get(1), w.errors.get(1)
     finally:
         w.teardown()
+
+
+_LAST_PUBLISHED = []
+
+
+def later_run_outcome(ctx, n, data, tag):
+    """what a later run makes of a cache file holding exactly `data`"""
+    correct = cc.correct_table(n)
+    _, res2, err2 = solo(ctx, n, tag, prefill=data)
+    if err2 is not None:
+        return "exception:" + type(err2).__name__
+    tab = np.asarray(res2, dtype=float) if res2 is not None else None
+    return "ok" if tab is not None and tab.shape == correct.shape and np.array_equal(tab, correct) else "wrong"
+
+
+def visibility_leg(ctx, n):
+    """Protocol-agnostic leg for a writer whose file-system calls are none of Cache.tla's variants: whatever is on
+    disk under the cache name at any gate the writer passes (stat / read / open / write / close / rename) and when it
+    has finished must be something a later run handles correctly."""
+    fresh_dir(ctx, "vis1")
+    fp = final_path(n)
+    w = cc.World(os.path.dirname(fp), n)
+    w.watch = fp
+    w.install()
+    try:
+        w.spawn(1)
+        guard = 0
+        while w.at[1][0] != "finished":
+            w.step(1)
+            guard += 1
+            if guard > 10 * n + 50:
+                raise harness.MachineryError("solo run does not terminate")
+        seen = [d for _, _, d in w.seen]
+    finally:
+        w.teardown()
+    try:
+        with open(fp, "rb") as f:
+            seen.append(f.read())
+    except OSError:
+        seen.append(None)
+    full = row_bytes(ctx, n)
+    distinct = []
+    for d in seen:
+        if d is not None and d not in distinct:
+            distinct.append(d)
+    for d in distinct:
+        outcome = "ok" if d == full else later_run_outcome(ctx, n, d, "vis2")
+        ctx.count("visible_cache_states_checked")
+        ctx.evaluations += 1
+        if outcome != "ok":
+            ctx.violation(f"C36/visible/partial-file-under-cache-name/{outcome.split(':')[0]}", {"kind": "visible", "n": n},
+                          f"n={n}: while the writer runs, {len(d)} of {len(full)} bytes are visible under the cache name; a run "
+                          f"that finds this file: {outcome}", subcheck="publish")
+
+
+def publish_leg(ctx, n):
+    """The file moved under the cache name must be complete *on disk* at the moment of the move (added after seed
+    C36-b: the rename was issued before the handle was flushed and closed).  A solo writer is run through the gates;
+    whatever its rename/replace publishes is offered, byte for byte as it was on disk at that moment, to a later
+    run -- the crash point 'right after the rename' and the view of a concurrent reader."""
+    ev, res, err = solo(ctx, n, "pub1")
+    if err is not None:
+        return
+    fbase = os.path.basename(final_path(n))
+    correct = cc.correct_table(n)
+    for p, name, data in list(_LAST_PUBLISHED):
+        if name != fbase:
+            continue
+        ctx.count("published_files_checked")
+        ctx.evaluations += 1
+        outcome = "source-file-missing" if data is None else later_run_outcome(ctx, n, data, "pub2")
+        ctx.nontriv(f"publish-{n}")
+        if outcome != "ok":
+            full = row_bytes(ctx, n)
+            ctx.violation(f"C36/publish/incomplete-file-published/{outcome.split(':')[0]}",
+                          {"kind": "publish", "n": n},
+                          f"n={n}: when the writer moves its file to the cache name only {0 if data is None else len(data)} of "
+                          f"{len(full)} bytes have reached the file system; a run that finds this file (writer stopped right "
+                          f"after the move, or a concurrent reader): {outcome}", subcheck="publish")
 
 
 def detect(ctx, n):
@@ -261,6 +341,19 @@ def run(ctx):
     ctx.extra["detected_variant"] = variant
     ctx.extra["detected_validate"] = validate
     ctx.extra["solo_events"] = info["events"]
+    for n in ([2, 10, 200] if q else [2, 10, 200, 1000]):
+        publish_leg(ctx, n)      # 200+ rows: more than one buffer of a buffered writer
+    if variant == "unknown":
+        # the writer's file-system calls are none of the protocols Cache.tla models (in place / shared temp / unique
+        # temp, each written through np.savetxt(path)): the model's behaviours cannot be replayed on it and nothing
+        # is inferred from them.  Not an alarm: the protocol-agnostic legs decide.
+        ctx.count("protocol_not_modelled")
+        print("CONFORMANCE-DRIFT property=C36 the cache writer's file-system calls match none of Cache.tla's protocol "
+              f"variants (solo run: {[e[0] for e in info['events']][:12]}); schedules of the model are not replayed, the "
+              "publish / visibility legs judge what other processes and later runs can find on disk")
+        for n in ([2, 10, 200] if q else [2, 10, 200, 1000]):
+            visibility_leg(ctx, n)
+        return
     mvar = variant if variant != "unknown" else "inplace"
     procs = [1, 2, 3]
     cfg = cache_cfg(ctx, "cache_j1.cfg", mvar, validate, procs, K, False, ["Safe", "NoError", "FinalNeverTorn"])
@@ -349,6 +442,10 @@ def replay(ctx, body):
         ctx.traces += 1
         if out.get("mismatch") or bad:
             ctx.violation(body["signature"], inst, f"replay: {out}", subcheck="schedule")
+    elif inst["kind"] == "publish":
+        publish_leg(ctx, inst["n"])
+    elif inst["kind"] == "visible":
+        visibility_leg(ctx, inst["n"])
     else:
         variant, validate, info = detect(ctx, 2)
         crash_sweep(ctx, inst["n"], variant, info, inst["offsets"])
